@@ -726,7 +726,7 @@ var prop = h.Prop[Spec]{
 		return s
 	},
 	Check:    check,
-	Watchdog: 20 * time.Second,
+	Watchdog: 60 * time.Second,
 }
 
 func TestMutate(t *testing.T) { h.Run(t, prop) }
@@ -860,7 +860,7 @@ func checkRaw(s RawSpec) h.Result {
 	return h.Result{NonTrivial: true}
 }
 
-var propRaw = h.Prop[RawSpec]{ID: "C10", Name: "fuzz", Check: checkRaw, Watchdog: 20 * time.Second}
+var propRaw = h.Prop[RawSpec]{ID: "C10", Name: "fuzz", Check: checkRaw, Watchdog: 60 * time.Second}
 
 func fuzzTarget(f *testing.F, target string) {
 	cs, err := getCorpus()
